@@ -43,6 +43,16 @@ def cases(draw, tier):
             if draw(st.booleans()):
                 prog.append({"op": "add", "a": draw(st.integers(0, 20)), "b": draw(st.integers(0, 20)), "meth": 0})
             prog.append(draw(T.trunc_instr()))
+        elif k == 10 and draw(st.integers(0, 2)) == 1:
+            # reduced density matrices before and after an in-place rescaling of the same object (no stale intermediate may survive)
+            a = draw(st.integers(0, 20))
+            o1, o2 = draw(T.observe_instr()), draw(T.observe_instr())
+            o1["a"] = a
+            o2["a"] = a
+            prog.append(o1)
+            prog.append({"op": "scale", "a": a, "val": draw(st.sampled_from([[2.0, 0.0], [-0.5, 0.0], [7.0, -3.0]])), "inplace": True})
+            prog.append(o2)
+            prog.append({"op": "rdm1site", "a": a, "mode": 0, "i": draw(st.integers(0, 12)), "idx": [0]})
         elif k == 10 and draw(st.integers(0, 2)) == 0:
             # mixed dtypes inside one state, then arithmetic on it
             a = draw(st.integers(0, 20))
